@@ -113,6 +113,7 @@ def r2_table(ck, cx, sh):
     ck.rule('R2', 'retry decision table: empty reply and retry_on_empty => retry; foreign reply and retry_on_invalid => retry; valid reply => stop; no option set => stop')
     tm, ex = sh.tm, sh.ex
     rows = []
+    unit_tests = []
     for p in cx.enum_region(ex, tm, sh.loop.body):
         annotate(p, heap=False)
         if contradictory(p):
@@ -130,10 +131,20 @@ def r2_table(ck, cx, sh):
                 atoms['retry_on_invalid'] = e.a
             elif "get('unit')" in t and 'unit_id' in t:
                 atoms['unit_match'] = e.a
+                sub = e._sub
+                sides = [U(sub.left), U(sub.comparators[0])] if isinstance(sub, ast.Compare) and len(sub.ops) == 1 else []
+                eq = bool(sides) and isinstance(sub.ops[0], (ast.Eq, ast.NotEq)) and (sh.req + '.unit_id') in sides and \
+                    any(x.endswith(".get('unit')") for x in sides)
+                if isinstance(sub, ast.Compare) and isinstance(sub.ops[0], ast.NotEq):
+                    atoms['unit_match'] = not e.a
+                unit_tests.append((eq, t))
             elif "get('length')" in t or "'length' in" in t:
                 atoms.setdefault('length_match', e.a)
         outcome = 'retry' if p.exit in (None, 'continue') else ('stop' if p.exit == 'break' else str(p.exit))
         rows.append((atoms, outcome))
+    for eq, t in sorted(set(unit_tests)):
+        ck.ob('R2', ex.qn, 'a reply is "ours" exactly when its unit equals the request unit', eq, detail='unit-match-not-equality %s' % t[:60], loc=cx.floc(ex, sh.loop),
+              message='the retry loop accepts a reply as its own under `%s`: a foreign reply (e.g. unit 0 or 255) stops the retries although retry_on_invalid is set' % t)
     ck.sample({'rule': 'R2', 'decision-table': sorted(set((str(sorted(a.items())), o) for a, o in rows))[:12]})
     ck.floor('R2', len(rows), 8, 'loop-body paths')
 
@@ -262,10 +273,24 @@ def r4_state(ck, cx, sh):
     tr = cx.method(tm, '_transact')
     hs = [h for t in ast.walk(tr.node) if isinstance(t, ast.Try) for h in t.handlers]
     ck.ob('R4', tr.qn, '_transact has an exception handler', bool(hs), detail='no-handler', loc=cx.floc(tr))
+    # every handled transport fault closes the client: decided on the enumerated handler paths (aliases of self.client resolved)
+    def may_fault(node, frame, path):
+        if isinstance(node, ast.Call) and callee_name(node) in ('_send', '_recv') and isinstance(node.func, ast.Attribute) and U(node.func.value) == 'self':
+            return ['socket.error', 'ModbusIOException', 'InvalidMessageReceivedException']
+        return []
+    nh = 0
+    for p in cx.enum(tr, tm, resolver=lambda c, fr, pa: None, may_raise=may_fault, max_depth=0):
+        annotate(p, heap=False)
+        hev = [i for i, e in enumerate(p.ev) if e.kind == 'handler']
+        if not hev:
+            continue
+        nh += 1
+        closes = [e for e in p.ev[hev[0]:] if e.kind == 'call' and U(e._sub.func) == 'self.client.close']
+        exc = p.ev[hev[0]].b
+        ck.ob('R4', tr.qn, 'handler of %s closes the client (next call reconnects)' % exc, bool(closes), detail='handler-does-not-close', loc=cx.floc(tr, p.ev[hev[0]].node),
+              message='_transact swallows a transport fault (%s) without closing the connection: a late reply can be read by the next transaction' % exc)
+    ck.ob('R4', tr.qn, 'transport faults are handled inside _transact', nh > 0, detail='no-fault-handler-path', loc=cx.floc(tr))
     for h in hs:
-        closes = [c for c in ast.walk(h) if isinstance(c, ast.Call) and U(c.func) == 'self.client.close']
-        ck.ob('R4', tr.qn, 'transport fault handler closes the client (next call reconnects)', bool(closes), detail='handler-does-not-close', loc=cx.floc(tr, h),
-              message='_transact swallows a transport fault without closing the connection: a late reply can be read by the next transaction')
         from ..paths import handler_names
         names = handler_names(h)
         for need in ('socket.error', 'ModbusIOException', 'InvalidMessageReceivedException'):
